@@ -122,7 +122,10 @@ def _gen_query(rng, backend, wire=None):
             "md_names": names, "md": md, "wire": wire or q["wire"]}
 
 
-def _query(rng, backend, name=None, md_rate=0.5, foreign_rate=0.05, wire=None, ld=False, omit_needs=0.12, md_at_end=False):
+MD_FAMILIES = ["js_", "inj_", "enum_", "fn_", "coll_", "type"]
+
+
+def _query(rng, backend, name=None, md_rate=0.5, foreign_rate=0.05, wire=None, ld=False, omit_needs=0.12, md_at_end=False, family=None):
     qs = pools.QUERIES[backend]
     if name is None:
         name, steps = qs[rng.randrange(len(qs))]
@@ -136,12 +139,23 @@ def _query(rng, backend, name=None, md_rate=0.5, foreign_rate=0.05, wire=None, l
     if not ld:
         own = [m for m in own if not m.startswith("docker_")] + (["docker_a"] if rng.random() < 0.03 else [])
     k = 0
+    fam = None
+    if family is not None:
+        # swarm knob: this history draws most of its extra metadata from ONE family (job scripts, inject blocks, enums,
+        # functions, collections, method types), so that declarations of several queries collide inside that family
+        fam = [m for m in own if (m.startswith(family) if family != "type" else not m.startswith(tuple(MD_FAMILIES[:-1]) + ("docker_",)))]
+        md_rate = max(md_rate, 0.7)
     while rng.random() < md_rate and k < 3:
-        mds.append(own[rng.randrange(len(own))])
+        pick_from = fam if (fam and rng.random() < 0.75) else own
+        mds.append(pick_from[rng.randrange(len(pick_from))])
         k += 1
     if rng.random() < foreign_rate:
         fo = pools.md_foreign(backend)
         mds.append(fo[rng.randrange(len(fo))])
+    for m in list(mds):
+        for comp, p_comp in pools.COMPANIONS.get(m, []):
+            if rng.random() < p_comp:
+                mds.append(comp)
     rng.shuffle(mds)
     md = [[rng.randrange(len(steps) + 1) if steps[-1][0] != "AsROOTTTree" else rng.randrange(len(steps)), m] for m in mds]
     if md_at_end:
@@ -159,7 +173,7 @@ def make_case(prop, tier, seed, i):
         b, name, stale, wire = _c02_space(tier)[i]
         q = _query(rng, b, name=name, md_rate=0.4, foreign_rate=0.0, wire=wire, omit_needs=0.0)
         # metadata that would make it fail is of no use here: keep only NEEDS + harmless blocks
-        keep = set(pools.NEEDS.get(name, [])) | {"js_a", "inj_1", "inj_2", "fn_scale", "enum_other"}
+        keep = set(pools.NEEDS.get(name, [])) | {"js_a", "js_y_nodep", "inj_1", "inj_2", "fn_scale", "enum_other"}
         pairs = [(p, m) for (p, _), m in zip(q["md"], q["md_names"]) if m in keep]
         q["md_names"] = [m for _, m in pairs]
         q["md"] = [[p, pools.METADATA[m][0]] for p, m in pairs]
@@ -187,6 +201,7 @@ def make_case(prop, tier, seed, i):
         "omit_needs": rng.choice([0.12, 0.12, 0.4]),
         "focus": None,
         "hot": None,
+        "md_family": rng.choice([None, None, None] + MD_FAMILIES),
     }
     # bias: a 'hot' sub-pool of few queries so that polluter and probe touch the same methods
     if rng.random() < 0.6:
@@ -251,7 +266,7 @@ def make_case(prop, tier, seed, i):
             q = _gen_query(rng, qb)
         else:
             q = _query(rng, qb, name=name, md_rate=cfg["md_rate"], ld=ld, omit_needs=cfg["omit_needs"],
-                       md_at_end=cfg["p_share"] > 0 and rng.random() < 0.5)
+                       md_at_end=cfg["p_share"] > 0 and rng.random() < 0.5, family=cfg["md_family"])
         op = {"op": "translate", "slot": slot, "backend": eb, "query": q, "ld": ld, "fault": None,
               "share": rng.random() < cfg["p_share"]}
         if not last and rng.random() < cfg["p_fault"]:
